@@ -790,6 +790,8 @@ func (pm *ProtocolManager) handleTxsMsg(msg *p2p.Msg) error {
 			continue
 		}
 
+		// the goroutine below must not share the loop variable
+		tx := tx
 		go func() {
 			// 判断接收到的交易是否在本分支已经存在
 			currentBlock := pm.chain.CurrentBlock()
